@@ -851,6 +851,23 @@ pub fn run_c15(rep: &mut Report, thorough: bool) {
             let n = more.len() as u64;
             sweep_app(rep, &env, &format!("stun-dns-polyglots-{}", tag), "cookie-less Binding requests whose bytes also parse as a DNS query x {UDP v4, UDP v6}", n * 2, |i| (if i % 2 == 0 { pu4 } else { pu6 }, more[(i / 2) as usize].clone()));
         }
+        // CHANGE-REQUEST whose declared value is longer than the 4-byte flag word (>= 256-byte form)
+        {
+            let vals: Vec<Vec<u8>> = vec![
+                vec![0, 0, 0, 0, 0, 3, 0, 4],
+                vec![0, 0, 0, 0, 0, 3, 0, 4, 0, 0, 0, 2],
+                vec![0, 0, 0, 0, 0, 0, 0, 2],
+                vec![0, 0, 0, 4, 0, 0, 0, 2],
+                vec![0, 0, 0, 0, 0xde, 0xad, 0xbe, 0xef],
+                vec![0, 0, 0, 0, 0, 1, 0, 8, 0, 1, 0x12, 0x34, 1, 2, 3, 4],
+                vec![0, 0, 0, 2, 0, 0, 0, 0],
+            ];
+            let n = vals.len() as u64;
+            sweep_app(rep, &env, &format!("stun-long-change-request-{}", tag), "a >= 256-byte request ending with a CHANGE-REQUEST whose value is 8..16 bytes (flag word + attribute-shaped / flag-shaped / arbitrary bytes) x 4 paths", n * 4, |i| {
+                let body = [stun_attr(0x8022, &[b'x'; 244]), stun_attr(3, &vals[(i / 4) as usize])].concat();
+                (paths[(i % 4) as usize], stun_magic(&body, &ID12))
+            });
+        }
         // attribute count: k unknown attributes before a CHANGE-REQUEST, k = 0..120
         {
             let big = stun_magic(&stun_attr(0x8022, &[b'x'; 256]), &ID12);
@@ -1210,8 +1227,8 @@ pub fn run_c17(rep: &mut Report, thorough: bool) {
             let m = if d[1] == 0 { appsmb::smb1_session_setup(&Smb1Hdr::new(0x73), &blob) } else { appsmb::smb2_session_setup(&Smb2Hdr::new(1), &blob) };
             (two[d[0] as usize], m)
         });
-        sweep_app(rep, &env, &format!("smb-dialects-long-{}", tag), "dialect lists of every length 1..200 (SMB1: distinct strings ending with NT LM 0.12; SMB2: distinct revisions ending with 0x0311) x {UDP, TCP}", 200 * 2 * 2, |i| {
-            let d = unrank(i, &[2, 2, 200]);
+        sweep_app(rep, &env, &format!("smb-dialects-long-{}", tag), "dialect lists of every length 1..320 (SMB1: distinct strings ending with NT LM 0.12; SMB2: distinct revisions ending with 0x0311) x {UDP, TCP}", 320 * 2 * 2, |i| {
+            let d = unrank(i, &[2, 2, 320]);
             let n = d[2] as usize + 1;
             let m = if d[1] == 0 {
                 let names: Vec<String> = (0..n - 1).map(|k| format!("D{}", k)).chain(["NT LM 0.12".to_string()]).collect();
